@@ -1,33 +1,225 @@
 /-
 C14, agent-sent commands inside the agent task (`Model/CommandLane.lean`, `AdSide`): `command_buffer`, the lending of
 the `CommandWriter` to `cmd_send_fut` (`check_cmds`), `CommandSendComplete` restarting the write while the buffer is
-not empty. Every interleaving of lane requests, write completions, ad hoc write completions and runtime reads.
+not empty; the commander id allocator (`CommanderIds::get_request`), `Register` / `Registered` records and how the
+runtime resolves them (`resolveRun`). Every interleaving of lane requests, write completions, ad hoc write
+completions and runtime reads.
 -/
 import SwimVerif.Proofs.CommandLane
+import SwimVerif.Proofs.AssocList
 
 set_option linter.unusedVariables false
 set_option linter.unusedSimpArgs false
 namespace SwimVerif.CL
 
-structure AdPre (h : Handler) (s : St) : Prop where
-  /-- read by the runtime ++ in the channel ++ in the write in flight ++ in `command_buffer` = issued -/
-  fifo : s.ad.taken ++ s.ad.chan ++ s.ad.inflight ++ s.ad.buf = s.ad.issued
-  /-- what was issued is what the received commands make the handlers send -/
-  issued : s.ad.issued = (validCmds s.received).flatMap h.issuedBy
+/-! ### the runtime's resolution of a growing record stream -/
+
+theorem resolveRun_snoc (rs : List Rec) (r : Rec) : resolveRun (rs ++ [r]) = stepResolve (resolveRun rs) r := by
+  simp [resolveRun, List.foldl_append]
+
+/-- a registration of ANOTHER id leaves an id's binding alone (the runtime never rebinds an id through a new one) -/
+theorem stepResolve_register_other (st : List (Nat × Nat) × List (Bool × AdHoc)) (t id id' : Nat) (h : id ≠ id') :
+    alGet (stepResolve st (.register t id)).1 id' = alGet st.1 id' := by
+  simp only [stepResolve]; exact alGet_alSet_ne _ _ h
+
+/-! ### the ad hoc side on its own -/
+
+structure AdOk (a : AdSide) : Prop where
+  /-- read by the runtime ++ in the channel ++ in the write in flight ++ in `command_buffer` = produced -/
+  fifo : a.taken ++ a.chan ++ a.inflight ++ a.buf = a.issued
+  /-- resolving the records as the runtime does gives every command the target it was MEANT for, in order -/
+  res : (resolveRun a.issued).2 = a.intended
+  /-- the runtime's id ↦ target bindings invert the allocator's address ↦ id table (so ids are unique per address) -/
+  inv : ∀ t id, alGet a.assigned t = some id → alGet (resolveRun a.issued).1 id = some t
+  lt : ∀ t id, alGet a.assigned t = some id → id < a.nextId
+  /-- a commander the lifecycle holds carries the id allocated for its address -/
+  cache : ∀ t id, alGet a.cache t = some id → alGet a.assigned t = some id
   /-- with the writer at home no write is in flight -/
-  idle : s.ad.home = true → s.ad.inflight = []
+  idle : a.home = true → a.inflight = []
+
+theorem adok_init : AdOk {} := by
+  constructor <;> simp [resolveRun]
+
+theorem adok_send {a : AdSide} (h : AdOk a) (x : AdHoc) :
+    AdOk (a.send x) ∧ (a.send x).intended = a.intended ++ [(false, x)] := by
+  refine ⟨⟨?_, ?_, ?_, h.lt, h.cache, h.idle⟩, rfl⟩
+  · show a.taken ++ a.chan ++ a.inflight ++ (a.buf ++ [.addressed x]) = a.issued ++ [.addressed x]
+    rw [← List.append_assoc, h.fifo]
+  · show (resolveRun (a.issued ++ [.addressed x])).2 = a.intended ++ [(false, x)]
+    rw [resolveRun_snoc]; simp [stepResolve, h.res]
+  · intro t id ht
+    show alGet (resolveRun (a.issued ++ [.addressed x])).1 id = some t
+    rw [resolveRun_snoc]; simpa [stepResolve] using h.inv t id ht
+
+theorem adok_register {a : AdSide} (h : AdOk a) (t : Nat) :
+    AdOk (a.register t).1 ∧ alGet (a.register t).1.assigned t = some (a.register t).2 ∧
+    (a.register t).1.intended = a.intended ∧ (a.register t).1.cache = a.cache := by
+  unfold AdSide.register
+  cases ha : alGet a.assigned t with
+  | some id =>
+    simp only []
+    refine ⟨⟨?_, ?_, ?_, h.lt, h.cache, h.idle⟩, ha, by first | rfl | trivial, by first | rfl | trivial⟩
+    · show a.taken ++ a.chan ++ a.inflight ++ (a.buf ++ [.register t id]) = a.issued ++ [.register t id]
+      rw [← List.append_assoc, h.fifo]
+    · show (resolveRun (a.issued ++ [.register t id])).2 = a.intended
+      rw [resolveRun_snoc]; simp [stepResolve, h.res]
+    · intro t' id' ht'
+      show alGet (resolveRun (a.issued ++ [.register t id])).1 id' = some t'
+      rw [resolveRun_snoc]
+      simp only [stepResolve]
+      by_cases hid : id = id'
+      · subst hid
+        -- the id is bound to both `t` and `t'` by the runtime's table: they are the same address
+        have h1 := h.inv t id ha
+        have h2 := h.inv t' id ht'
+        rw [h1] at h2
+        rw [alGet_alSet_same]; exact h2
+      · rw [alGet_alSet_ne _ _ hid]; exact h.inv t' id' ht'
+  | none =>
+    simp only []
+    refine ⟨⟨?_, ?_, ?_, ?_, ?_, h.idle⟩, by simp, by first | rfl | trivial, by first | rfl | trivial⟩
+    · show a.taken ++ a.chan ++ a.inflight ++ (a.buf ++ [.register t a.nextId]) = a.issued ++ [.register t a.nextId]
+      rw [← List.append_assoc, h.fifo]
+    · show (resolveRun (a.issued ++ [.register t a.nextId])).2 = a.intended
+      rw [resolveRun_snoc]; simp [stepResolve, h.res]
+    · intro t' id' ht'
+      show alGet (resolveRun (a.issued ++ [.register t a.nextId])).1 id' = some t'
+      rw [resolveRun_snoc]
+      simp only [stepResolve]
+      have ht2 : alGet (alSet a.assigned t a.nextId) t' = some id' := ht'
+      by_cases htt : t = t'
+      · subst htt
+        rw [alGet_alSet_same] at ht2
+        have : a.nextId = id' := Option.some.inj ht2
+        subst this
+        rw [alGet_alSet_same]
+      · rw [alGet_alSet_ne _ _ htt] at ht2
+        have hlt := h.lt t' id' ht2
+        have hne : a.nextId ≠ id' := by omega
+        rw [alGet_alSet_ne _ _ hne]; exact h.inv t' id' ht2
+    · intro t' id' ht'
+      have ht2 : alGet (alSet a.assigned t a.nextId) t' = some id' := ht'
+      show id' < a.nextId + 1
+      by_cases htt : t = t'
+      · subst htt
+        rw [alGet_alSet_same] at ht2
+        have : a.nextId = id' := Option.some.inj ht2
+        omega
+      · rw [alGet_alSet_ne _ _ htt] at ht2
+        have := h.lt t' id' ht2; omega
+    · intro t' id' hc
+      show alGet (alSet a.assigned t a.nextId) t' = some id'
+      have hold := h.cache t' id' hc
+      by_cases htt : t = t'
+      · subst htt; rw [ha] at hold; exact absurd hold (by simp)
+      · rw [alGet_alSet_ne _ _ htt]; exact hold
+
+theorem adok_sendById {a : AdSide} (h : AdOk a) (id : Nat) (x : AdHoc) (hid : alGet a.assigned x.target = some id) :
+    AdOk (a.sendById id x) ∧ (a.sendById id x).intended = a.intended ++ [(true, x)] := by
+  have hb := h.inv x.target id hid
+  refine ⟨⟨?_, ?_, ?_, h.lt, h.cache, h.idle⟩, rfl⟩
+  · show a.taken ++ a.chan ++ a.inflight ++ (a.buf ++ [.byId id x.value x.ow]) = a.issued ++ [.byId id x.value x.ow]
+    rw [← List.append_assoc, h.fifo]
+  · show (resolveRun (a.issued ++ [.byId id x.value x.ow])).2 = a.intended ++ [(true, x)]
+    rw [resolveRun_snoc]; simp [stepResolve, hb, h.res]
+  · intro t id' ht
+    show alGet (resolveRun (a.issued ++ [.byId id x.value x.ow])).1 id' = some t
+    rw [resolveRun_snoc]; simpa [stepResolve, hb] using h.inv t id' ht
+
+/-- **one send through a commander is resolved by the runtime to the commander's own target** -/
+theorem adok_csend {a : AdSide} (h : AdOk a) (re : Bool) (x : AdHoc) :
+    AdOk (a.csend re x) ∧ (a.csend re x).intended = a.intended ++ [(true, x)] := by
+  unfold AdSide.csend
+  cases hc : (if re = true then none else alGet a.cache x.target) with
+  | some id =>
+    simp only []
+    have hcache : alGet a.cache x.target = some id := by
+      cases re <;> simp at hc; exact hc
+    exact adok_sendById h id x (h.cache _ _ hcache)
+  | none =>
+    simp only []
+    obtain ⟨k1, k2, k3, k4⟩ := adok_register h x.target
+    have hok : AdOk { (a.register x.target).1 with cache := alSet (a.register x.target).1.cache x.target (a.register x.target).2 } := by
+      refine ⟨k1.fifo, k1.res, k1.inv, k1.lt, ?_, k1.idle⟩
+      intro t id hcx
+      have hcx' : alGet (alSet (a.register x.target).1.cache x.target (a.register x.target).2) t = some id := hcx
+      by_cases ht : x.target = t
+      · subst ht
+        rw [alGet_alSet_same] at hcx'
+        rw [← Option.some.inj hcx']; exact k2
+      · rw [alGet_alSet_ne _ _ ht] at hcx'
+        exact k1.cache t id hcx'
+    obtain ⟨r1, r2⟩ := adok_sendById hok (a.register x.target).2 x k2
+    refine ⟨r1, ?_⟩
+    rw [r2]; show (a.register x.target).1.intended ++ [(true, x)] = _
+    rw [k3]
+
+theorem adok_sends {a : AdSide} (h : AdOk a) (xs : List AdHoc) :
+    AdOk (xs.foldl AdSide.send a) ∧ (xs.foldl AdSide.send a).intended = a.intended ++ xs.map (fun x => (false, x)) := by
+  induction xs generalizing a with
+  | nil => exact ⟨h, by simp⟩
+  | cons x rest ih =>
+    obtain ⟨h1, h2⟩ := adok_send h x
+    obtain ⟨h3, h4⟩ := ih h1
+    exact ⟨h3, by rw [List.foldl_cons, h4, h2]; simp⟩
+
+theorem adok_csends (re : AdHoc → Bool) {a : AdSide} (h : AdOk a) (xs : List AdHoc) :
+    AdOk (xs.foldl (fun a x => a.csend (re x) x) a) ∧
+    (xs.foldl (fun a x => a.csend (re x) x) a).intended = a.intended ++ xs.map (fun x => (true, x)) := by
+  induction xs generalizing a with
+  | nil => exact ⟨h, by simp⟩
+  | cons x rest ih =>
+    obtain ⟨h1, h2⟩ := adok_csend h (re x) x
+    obtain ⟨h3, h4⟩ := ih h1
+    exact ⟨h3, by rw [List.foldl_cons, h4, h2]; simp⟩
+
+theorem adok_adHandler (hd : Handler) {a : AdSide} (h : AdOk a) (w : Nat) :
+    AdOk (adHandler hd a w) ∧ (adHandler hd a w).intended = a.intended ++ hd.sentBy w := by
+  unfold adHandler Handler.sentBy
+  obtain ⟨h1, h2⟩ := adok_sends h (hd.sends w)
+  obtain ⟨h3, h4⟩ := adok_csends hd.recreate h1 (hd.csends w)
+  exact ⟨h3, by rw [h4, h2, List.append_assoc]⟩
+
+theorem adok_adAfter (hd : Handler) {a : AdSide} (h : AdOk a) (v : Nat) :
+    AdOk (hd.adAfter a v) ∧ (hd.adAfter a v).intended = a.intended ++ hd.intendedBy v := by
+  unfold Handler.adAfter Handler.intendedBy
+  cases hs : hd.selfCmd v with
+  | none =>
+    obtain ⟨h1, h2⟩ := adok_adHandler hd h v
+    exact ⟨h1, by rw [h2]; simp⟩
+  | some u =>
+    obtain ⟨h1, h2⟩ := adok_adHandler hd h u
+    obtain ⟨h3, h4⟩ := adok_adHandler hd h1 v
+    exact ⟨h3, by rw [h4, h2, List.append_assoc]⟩
+
+/-- moving records between buffer, write in flight, channel and the runtime changes nothing else -/
+theorem adok_move {a a' : AdSide} (h : AdOk a) (hi : a'.issued = a.issued) (hint : a'.intended = a.intended)
+    (ha : a'.assigned = a.assigned) (hn : a'.nextId = a.nextId) (hc : a'.cache = a.cache)
+    (hf : a'.taken ++ a'.chan ++ a'.inflight ++ a'.buf = a.taken ++ a.chan ++ a.inflight ++ a.buf)
+    (hidle : a'.home = true → a'.inflight = []) : AdOk a' := by
+  refine ⟨by rw [hf, hi]; exact h.fifo, by rw [hi, hint]; exact h.res, ?_, ?_, ?_, hidle⟩
+  · intro t id; rw [ha, hi]; exact h.inv t id
+  · intro t id; rw [ha, hn]; exact h.lt t id
+  · intro t id; rw [hc, ha]; exact h.cache t id
+
+/-! ### inside the agent task -/
+
+structure AdPre (h : Handler) (s : St) : Prop where
+  ok : AdOk s.ad
+  /-- what was sent is what the received commands make the handlers send -/
+  meant : s.ad.intended = (validCmds s.received).flatMap h.intendedBy
 
 structure AdInv (h : Handler) (s : St) : Prop extends AdPre h s where
-  /-- buffered commands ⇒ the writer is away: a `CommandSendComplete` is due and will restart the write -/
+  /-- buffered records ⇒ the writer is away: a `CommandSendComplete` is due and will restart the write -/
   owed : s.ad.buf ≠ [] → s.ad.home = false
 
 theorem adinv_init (h : Handler) : AdInv h {} :=
-  ⟨⟨rfl, rfl, fun _ => rfl⟩, fun hb => absurd rfl hb⟩
+  ⟨⟨adok_init, rfl⟩, fun hb => absurd rfl hb⟩
 
 @[simp] theorem retain_ad (s : St) : (retain s).ad = s.ad := rfl
 @[simp] theorem retain_received' (s : St) : (retain s).received = s.received := rfl
 
-theorem adpre_retain {h : Handler} {s : St} (hp : AdPre h s) : AdPre h (retain s) := ⟨hp.fifo, hp.issued, hp.idle⟩
+theorem adpre_retain {h : Handler} {s : St} (hp : AdPre h s) : AdPre h (retain s) := ⟨hp.ok, hp.meant⟩
 
 /-- `check_cmds` re-establishes "buffered ⇒ writer away" -/
 theorem adinv_checkCmds {h : Handler} {s : St} (hp : AdPre h s) : AdInv h (checkCmds s) := by
@@ -35,9 +227,9 @@ theorem adinv_checkCmds {h : Handler} {s : St} (hp : AdPre h s) : AdInv h (check
   by_cases hc : (!s.ad.buf.isEmpty && s.ad.home) = true
   · rw [if_pos hc]
     have hh : s.ad.home = true := by simp at hc; exact hc.2
-    refine ⟨⟨?_, hp.issued, fun hx => by simp at hx⟩, fun hb => rfl⟩
-    show s.ad.taken ++ s.ad.chan ++ s.ad.buf ++ [] = s.ad.issued
-    rw [← hp.fifo, hp.idle hh]; simp
+    refine ⟨⟨adok_move hp.ok rfl rfl rfl rfl rfl ?_ (fun hx => by simp at hx), hp.meant⟩, fun hb => rfl⟩
+    show s.ad.taken ++ s.ad.chan ++ s.ad.buf ++ [] = s.ad.taken ++ s.ad.chan ++ s.ad.inflight ++ s.ad.buf
+    rw [hp.ok.idle hh]; simp
   · rw [if_neg hc]
     refine ⟨hp, fun hb => ?_⟩
     cases hh : s.ad.home with
@@ -48,33 +240,30 @@ theorem adinv_checkCmds {h : Handler} {s : St} (hp : AdPre h s) : AdInv h (check
       | nil => exact absurd hx hb
       | cons a r => simp [hh]
 
-/-- the event proper keeps the FIFO facts (it may leave commands buffered with the writer at home: `check_cmds`
-follows whenever a handler ran) -/
 theorem adpre_handleEv (h : Handler) {s : St} (hi : AdInv h s) (e : Ev) : AdPre h (handleEv h s e) := by
   have hp := hi.toAdPre
   cases e with
   | read l => exact hp
   | readCmd => exact hp
   | writeDone l =>
-    cases l <;> simp only [handleEv] <;> split <;> exact ⟨hp.fifo, hp.issued, hp.idle⟩
-  | sync l r => cases l <;> exact ⟨hp.fifo, hp.issued, hp.idle⟩
+    cases l <;> simp only [handleEv] <;> split <;> exact ⟨hp.ok, hp.meant⟩
+  | sync l r => cases l <;> exact ⟨hp.ok, hp.meant⟩
   | command l b =>
     cases l with
     | sup => exact hp
     | cmd =>
       cases b with
       | bad =>
-        refine ⟨hp.fifo, ?_, hp.idle⟩
-        show s.ad.issued = (validCmds (s.received ++ [Body.bad])).flatMap h.issuedBy
-        rw [validCmds_append]; simpa [validCmds] using hp.issued
+        refine ⟨hp.ok, ?_⟩
+        show s.ad.intended = (validCmds (s.received ++ [Body.bad])).flatMap h.intendedBy
+        rw [validCmds_append]; simpa [validCmds] using hp.meant
       | ok v =>
         show AdPre h (doCommand h { s with received := s.received ++ [Body.ok v] } v)
         rw [doCommand_eq]
-        refine ⟨?_, ?_, hp.idle⟩
-        · show s.ad.taken ++ s.ad.chan ++ s.ad.inflight ++ (s.ad.buf ++ h.issuedBy v) = s.ad.issued ++ h.issuedBy v
-          rw [← List.append_assoc, hp.fifo]
-        · show s.ad.issued ++ h.issuedBy v = (validCmds (s.received ++ [Body.ok v])).flatMap h.issuedBy
-          rw [validCmds_append, hp.issued]; simp [validCmds]
+        obtain ⟨k1, k2⟩ := adok_adAfter h hp.ok v
+        refine ⟨k1, ?_⟩
+        show (h.adAfter s.ad v).intended = (validCmds (s.received ++ [Body.ok v])).flatMap h.intendedBy
+        rw [k2, validCmds_append, hp.meant]; simp [validCmds]
   | cmdSendDone =>
     simp only [handleEv]
     by_cases hh : s.ad.home = true
@@ -83,13 +272,15 @@ theorem adpre_handleEv (h : Handler) {s : St} (hi : AdInv h s) (e : Ev) : AdPre 
       by_cases hb : s.ad.buf.isEmpty = true
       · rw [if_pos hb]
         have hb' : s.ad.buf = [] := by simpa using hb
-        refine ⟨?_, hp.issued, fun _ => rfl⟩
-        show s.ad.taken ++ (s.ad.chan ++ s.ad.inflight) ++ [] ++ s.ad.buf = s.ad.issued
-        rw [← hp.fifo]; simp
+        refine ⟨adok_move hp.ok rfl rfl rfl rfl rfl ?_ (fun _ => rfl), hp.meant⟩
+        show s.ad.taken ++ (s.ad.chan ++ s.ad.inflight) ++ [] ++ s.ad.buf
+          = s.ad.taken ++ s.ad.chan ++ s.ad.inflight ++ s.ad.buf
+        simp
       · rw [if_neg hb]
-        refine ⟨?_, hp.issued, fun hx => absurd hx hh⟩
-        show s.ad.taken ++ (s.ad.chan ++ s.ad.inflight) ++ s.ad.buf ++ [] = s.ad.issued
-        rw [← hp.fifo]; simp
+        refine ⟨adok_move hp.ok rfl rfl rfl rfl rfl ?_ (fun hx => absurd hx hh), hp.meant⟩
+        show s.ad.taken ++ (s.ad.chan ++ s.ad.inflight) ++ s.ad.buf ++ []
+          = s.ad.taken ++ s.ad.chan ++ s.ad.inflight ++ s.ad.buf
+        simp
 
 /-- events after which `check_cmds` is NOT called leave nothing buffered with the writer at home -/
 theorem owed_handleEv (h : Handler) {s : St} (hi : AdInv h s) (e : Ev) (hr : e.runsHandler = false) :
@@ -122,15 +313,15 @@ theorem adinv_step (h : Handler) {s : St} (hi : AdInv h s) (e : Ev) : AdInv h (s
   cases e with
   | read l =>
     cases l <;> simp only [step, readLane] <;> split <;>
-      exact ⟨⟨hi.fifo, hi.issued, hi.idle⟩, hi.owed⟩
+      exact ⟨⟨hi.ok, hi.meant⟩, hi.owed⟩
   | readCmd =>
     simp only [step, readCmd]
     cases hc : s.ad.chan with
     | nil => simpa [hc] using hi
     | cons a rest =>
-      refine ⟨⟨?_, hi.issued, hi.idle⟩, hi.owed⟩
-      show (s.ad.taken ++ [a]) ++ rest ++ s.ad.inflight ++ s.ad.buf = s.ad.issued
-      rw [← hi.fifo, hc]; simp
+      refine ⟨⟨adok_move hi.ok rfl rfl rfl rfl rfl ?_ hi.ok.idle, hi.meant⟩, hi.owed⟩
+      show (s.ad.taken ++ [a]) ++ rest ++ s.ad.inflight ++ s.ad.buf = s.ad.taken ++ s.ad.chan ++ s.ad.inflight ++ s.ad.buf
+      rw [hc]; simp
   | writeDone l =>
     have hp := adpre_handleEv h hi (.writeDone l)
     have ho := owed_handleEv h hi (.writeDone l) rfl
@@ -162,10 +353,43 @@ theorem adinv_run (h : Handler) (evs : List Ev) : ∀ (s : St), AdInv h s → Ad
   | nil => intro s hi; exact hi
   | cons e rest ih => intro s hi; exact ih _ (adinv_step h hi e)
 
-/-- commands for one target among ad hoc commands -/
-def adFor (t : Nat) (as : List AdHoc) : List AdHoc := as.filter (fun a => a.target = t)
+/-- commands for one target among resolved commands -/
+def adFor (t : Nat) (as : List (Bool × AdHoc)) : List (Bool × AdHoc) := as.filter (fun a => a.2.target = t)
 
-theorem adFor_append (t : Nat) (a b : List AdHoc) : adFor t (a ++ b) = adFor t a ++ adFor t b := by
-  simp [adFor]
+/-- the commands that went through a commander -/
+def viaCommander (as : List (Bool × AdHoc)) : List AdHoc := (as.filter (·.1)).map (·.2)
+
+/-- the commands a handler sends through commanders for one received command -/
+def Handler.csentBy (h : Handler) (v : Nat) : List AdHoc :=
+  (match h.selfCmd v with | some u => h.csends u | none => []) ++ h.csends v
+
+theorem viaCommander_append (a b : List (Bool × AdHoc)) : viaCommander (a ++ b) = viaCommander a ++ viaCommander b := by
+  simp [viaCommander]
+
+theorem viaCommander_sentBy (h : Handler) (w : Nat) : viaCommander (h.sentBy w) = h.csends w := by
+  unfold viaCommander Handler.sentBy
+  rw [List.filter_append, List.map_append]
+  have h1 : ∀ xs : List AdHoc, ((xs.map (fun x => (false, x))).filter (·.1)) = [] := by
+    intro xs; induction xs with
+    | nil => rfl
+    | cons x r ih => simp [List.filter, ih]
+  have h2 : ∀ xs : List AdHoc, ((xs.map (fun x => (true, x))).filter (·.1)).map (·.2) = xs := by
+    intro xs; induction xs with
+    | nil => rfl
+    | cons x r ih => simp [List.filter, ih]
+  rw [h1, h2]; rfl
+
+theorem viaCommander_intendedBy (h : Handler) (v : Nat) : viaCommander (h.intendedBy v) = h.csentBy v := by
+  unfold Handler.intendedBy Handler.csentBy
+  rw [viaCommander_append, viaCommander_sentBy]
+  cases h.selfCmd v with
+  | none => rfl
+  | some u => simp only []; rw [viaCommander_sentBy]
+
+theorem viaCommander_flatMap (h : Handler) (vs : List Nat) :
+    viaCommander (vs.flatMap h.intendedBy) = vs.flatMap h.csentBy := by
+  induction vs with
+  | nil => rfl
+  | cons v rest ih => simp only [List.flatMap_cons]; rw [viaCommander_append, viaCommander_intendedBy, ih]
 
 end SwimVerif.CL
